@@ -162,6 +162,11 @@ def headerKey : Cell → Option String
   | .int n => some (toString n)
   | _ => Option.none
 
+/-- `_rows_as_dict` (fix C01-H2 of round h1): a header of ONE name over rows of several cells is a `ValueError`.  Before the fix the outer
+`zipper` repeated the single NAME for every transposed column and `dict` kept the last pair: `dictable([[1,2,3],[7,8,9]], columns=['a'])` was
+`{'a': [3, 9]}` (two cells of every row dropped silently) while the same rows under two names are a ValueError. -/
+def headerMisfit {α} (cs : List String) (tr : List (List α)) : Bool := cs.length == 1 && decide (tr.length > 1)
+
 /-- `_data_columns_as_dict(data, columns)` followed by `_value` on every column (line 331).
 `none` = a combination outside the modelled universe (a header row holding something else than strings / ints). -/
 def dataCols (data : Data) (columns : Option (List String)) : Option (Except Err Table) :=
@@ -175,7 +180,7 @@ def dataCols (data : Data) (columns : Option (List String)) : Option (Except Err
       -- dict(zipper(columns, zipper(*data)))
       some (match zipper Cell.none rs with
         | .error e => .error e
-        | .ok tr => match zipper2 cs tr with
+        | .ok tr => if headerMisfit cs tr then .error .value else match zipper2 cs tr with
           | .error e => .error e
           | .ok kvs => .ok (Table.ofPairs kvs))
   | .rows (hd :: rs), Option.none =>
@@ -185,7 +190,7 @@ def dataCols (data : Data) (columns : Option (List String)) : Option (Except Err
       | some hs => if rs.isEmpty then some (.ok (Table.ofPairs (hs.map fun h => (h, [])))) else
         some (match zipper Cell.none rs with
         | .error e => .error e
-        | .ok tr => match zipper2 hs tr with
+        | .ok tr => if headerMisfit hs tr then .error .value else match zipper2 hs tr with
           | .error e => .error e
           | .ok kvs => .ok (Table.ofPairs kvs))
 
